@@ -22,7 +22,7 @@ import (
 // Part 2: two parents with the same selector racing to adopt one orphan, all interleavings at API-call
 //         granularity.
 
-var c04Selectors = []string{"matchLabels", "In", "NotIn", "Exists", "generated", "empty"}
+var c04Selectors = []string{"matchLabels", "In", "NotIn", "Exists", "generated", "generated+explicit", "empty"}
 var c04Labels = []string{"match", "partial", "none"}
 var c04Owners = []string{"none", "ours", "other-controller", "ours+extra", "other+extra", "extra-only", "plain-ours"}
 var c04Live = []string{"same", "deleting", "replaced-uid", "gone"}
@@ -40,6 +40,8 @@ type c04Case struct {
 	LiveOwners    string // "" / "same": as cached; "added": the live object gained a foreign plain owner since it was observed; "removed": it lost its plain owner x
 }
 
+func c04Gen(c c04Case) bool { return strings.HasPrefix(c.Selector, "generated") }
+
 func c04SelectorSpec(sel string) kit.M {
 	switch sel {
 	case "matchLabels":
@@ -52,13 +54,17 @@ func c04SelectorSpec(sel string) kit.M {
 		return kit.M{"matchExpressions": kit.L{kit.M{"key": "app", "operator": "Exists"}, kit.M{"key": "tier", "operator": "Exists"}}}
 	case "empty":
 		return kit.M{}
+	case "generated+explicit":
+		// generateSelector is on AND the parent carries a selector of its own, which "is ignored in this case"
+		// (nothing in this world satisfies it)
+		return kit.M{"matchLabels": kit.M{"nobody": "has-this"}}
 	}
 	return nil
 }
 
 // labels of the child and whether they satisfy the selector
 func c04ChildLabels(c c04Case) (kit.M, bool) {
-	if c.Selector == "generated" {
+	if c04Gen(c) {
 		switch c.Labels {
 		case "match":
 			return kit.M{"controller-uid": "puid", "app": "x"}, true
@@ -90,7 +96,7 @@ func c04Run(c c04Case) []mc.Finding {
 	bad := func(key, format string, a ...interface{}) {
 		f = append(f, mc.Finding{Key: "C04:" + key, Msg: fmt.Sprintf("%+v: ", c) + fmt.Sprintf(format, a...)})
 	}
-	o := ccOpt{parent: kit.Thing, children: []*sim.Kind{kit.Leaf}, generateSel: c.Selector == "generated"}
+	o := ccOpt{parent: kit.Thing, children: []*sim.Kind{kit.Leaf}, generateSel: c04Gen(c)}
 	if c.Revision {
 		o.methods = map[string]v1alpha1.ChildUpdateMethod{"leafs": v1alpha1.ChildUpdateRollingInPlace}
 	} else {
@@ -206,9 +212,9 @@ func c04Run(c c04Case) []mc.Finding {
 	}
 	w.Hooks.Handle("/cc/sync", world.JSON(func(req map[string]interface{}) interface{} {
 		d := kit.Obj(kit.Leaf, "", "new")
-		if c.DesiredLabels == "match" && c.Selector != "generated" {
+		if c.DesiredLabels == "match" && !c04Gen(c) {
 			kit.Labels(d, "app", "x", "tier", "t")
-		} else if c.DesiredLabels == "nomatch" && c.Selector == "generated" {
+		} else if c.DesiredLabels == "nomatch" && c04Gen(c) {
 			kit.Labels(d, "controller-uid", "uid-of-another-parent") // e.g. labels copied from another parent's child
 		} else if c.DesiredLabels == "nomatch" {
 			kit.Labels(d, "app", "bad")
@@ -385,7 +391,7 @@ func c04Run(c c04Case) []mc.Finding {
 			}
 		}
 	}
-	if hookCalled && c.Selector == "generated" && c.DesiredLabels != "nomatch" {
+	if hookCalled && c04Gen(c) && c.DesiredLabels != "nomatch" {
 		for _, r := range w.Sim.Log {
 			if r.Kind == kit.Leaf && r.Verb == "create" && kit.Str(r.Body, "metadata", "labels", "controller-uid") != "puid" {
 				bad("generated-label-missing", "child created without the controller-uid label")
